@@ -64,6 +64,8 @@ def cell_str(case, v):
     present); otherwise every cell is str() of its own Python value."""
     cols, cont = case["cols"], case["container"]
     allnum = all(c in "ifm" for c in cols)
+    if v is None:
+        return "None"
     if isinstance(v, str):
         return v
     if allnum and cont in ("df", "ndnum", "list"):
@@ -151,6 +153,50 @@ def sig_close(a, b):
     return True
 
 
+# ---- the callers of _merge_columns: single column passthrough vs merge, control features, fit vs predict ------------
+def canon(v):
+    """canonical token of a VALUE (single column: values are passed through unchanged and compared by ==)"""
+    if isinstance(v, str):
+        return "s" + str(v)
+    return "n" + repr(float(v))
+
+
+def caller_key(case, r):
+    """first-principles group identity of a row: the value itself for one column, the tuple of strings otherwise"""
+    if len(case["cols"]) == 1:
+        return canon(r[0])
+    return tuple(cell_str(case, v) for v in r)
+
+
+def build_single(cont, vals):
+    import pandas as pd
+    if cont == "flat":
+        return list(vals)
+    if cont == "series":
+        return pd.Series(list(vals), dtype=object if any(isinstance(v, str) for v in vals) else None)
+    if cont == "df":
+        return pd.DataFrame({"s0": list(vals)})
+    if cont == "ndobj":
+        a = np.empty((len(vals), 1), dtype=object)
+        for i, v in enumerate(vals):
+            a[i, 0] = v
+        return a
+    if cont == "nd1d":
+        return np.array(list(vals))
+    raise ValueError(cont)
+
+
+def caller_table(case, rows, cont=None):
+    cont = cont or case["container"]
+    if len(case["cols"]) == 1:
+        return build_single(cont, [r[0] for r in rows])
+    return build_container(case, rows, cont)
+
+
+CALLER_CELLS = {"s": ["a", "b", "1", "1.0", "True", "None", ",", "\\", ""], "i": [0, 1, 2, 10], "f": [1.0, 0.5, 2.0, 10.0],
+                "m": [1, 1.0, 2, 0.5, 2.0], "b": [True, False], "n": [None, "None", "a"], "B": [True, "True", 1, "1"]}
+
+
 class _Pass:
     pass
 
@@ -201,7 +247,11 @@ class CHECK(Check):
                   "in every column, the key partition equals the tuple-equality partition and MetricFrame's non-empty "
                   "intersectional cells. Tie: Generated/MergeConsts.lean is lifted from _merge_columns on every run; "
                   "moments' tags/index, EG/GridSearch, ThresholdOptimizer fit keys and predict-time rule selection are "
-                  "compared with the compiled model and a first-principles tuple-equality oracle.")
+                  "compared with the compiled model and a first-principles tuple-equality oracle. Callers (lifted into "
+                  "Generated/MergeCallers.lean): a single column is passed through unchanged (not stringified) and is "
+                  "injective too, >= 2 columns are merged, control features use the same function under the same test, "
+                  "and every fit-time and the predict-time call site reach the same encoder (encode_single/multi/"
+                  "injective, control_uses_same_encoder, fit_predict_same_encoder, predict_selects_same_tuple).")
     design_ref = "DESIGN.md section 4, C13"
     quick_cases = 600
     thorough_cases = 6000
@@ -217,7 +267,10 @@ class CHECK(Check):
             "ThresholdOptimizer interpolation_dict keys + _pmf_predict on permuted/new (tuple, score) rows, also with "
             "another container at predict time; EG/GridSearch lambda_vecs_ index and predictions vs. the same fit on "
             "first-principles group ids. distinct = distinct (cols, container, table, labels, targets); non-trivial = "
-            ">= 2 distinct tuples. thorough: one table holding all 441 two-column tuples with values of length <= 2 "
+            ">= 2 distinct tuples. 15% 'callers' cases: 1-3 columns incl. a single str/int/float/bool/mixed column in a flat "
+            "list, Series, (n,1) DataFrame / object array or 1-d array, object tables with bools, None and look-alike "
+            "strings ('True', 'None', '1', '1.0'), 1- or 2-column control features, ThresholdOptimizer queried in another "
+            "container at predict time. thorough: one table holding all 441 two-column tuples with values of length <= 2 "
             "over {',', '\\\\', 'a', ' '} per container, and every pair of those tuples as its own 4-row table")
     explanation = ("theorems over the Lean model Merge (all inputs); encoder constants lifted from the source; "
                    "correspondence: merged keys/partitions from moments, EG, GridSearch, ThresholdOptimizer vs compiled "
@@ -226,7 +279,9 @@ class CHECK(Check):
                "str()/repr(); values with trailing NUL characters are outside the alphabet (numpy strips them)",
                "pandas groupby / MultiIndex on the merged string column",
                "python str.replace with a one-character pattern = per-character substitution (List.flatMap in the model)")
-    assumptions = ("every row has the same number (>= 2) of columns", "cells are str, int or float (no NaN/None)")
+    assumptions = ("every row has the same number (>= 1) of columns",
+                   "cells are str, int, float or bool; None only inside object arrays (where numpy's astype(str) yields "
+                   "'None'; a None in a DataFrame is a missing value and the table is rejected); no NaN")
 
     # ---------------------------------------------------------------- generation
     def _rand_str(self, rng):
@@ -307,8 +362,59 @@ class CHECK(Check):
                 tuples.append(t)
         return tuples
 
+    def _gen_callers(self, rng):
+        ncol = rng.choice([1, 1, 1, 2, 3])
+        if ncol == 1:
+            kind = rng.choice(["s", "s", "i", "f", "m", "b", "sm"])
+            if kind == "sm":          # strings and numbers in one object column ('1' vs 1 vs 1.0)
+                cols, pool, conts = ["m"], ["1", 1, 1.0, "1.0", 2, "a"], ["series", "df", "ndobj"]
+            else:
+                cols, pool = [kind], CALLER_CELLS[kind]
+                conts = ["flat", "series", "df", "ndobj", "nd1d"]
+            vals = rng.sample(pool, min(len(pool), rng.choice([2, 3, 4])))
+            tuples = [[v] for v in vals]
+        else:
+            cols = [rng.choice(["s", "b", "n", "B", "i"]) for _ in range(ncol)]
+            cols[rng.randrange(ncol)] = "s"          # an object table: every cell is str() of its own value
+            conts = ["ndobj", "df"]
+            tuples = []
+            for _ in range(40):
+                t = [rng.choice(CALLER_CELLS[k]) for k in cols]
+                if t not in tuples:
+                    tuples.append(t)
+                if len(tuples) >= rng.choice([2, 3, 4, 5]):
+                    break
+        container = rng.choice(conts)
+        assign = []
+        for t in range(len(tuples)):
+            assign += [(t, 0), (t, 1)]
+        for _ in range(rng.choice([0, 1, 3])):
+            assign.append((rng.randrange(len(tuples)), rng.randint(0, 1)))
+        rng.shuffle(assign)
+        rows = [list(tuples[t]) for t, _ in assign]
+        n = len(rows)
+        case = {"kind": "callers", "cols": cols, "container": container, "rows": rows, "y": [lab for _, lab in assign],
+                "scores": [str(F(rng.randint(0, 8), 8)) for _ in range(n)],
+                "query": [[i, str(F(rng.randint(0, 16), 16))] for i in rng.sample(range(n), n)],
+                "moment": rng.choice(["DP", "EO", "BGL", "ER"]), "ctrl": None, "ctrl_cols": 0,
+                "to": rng.choice([None, "demographic_parity", "equalized_odds"]), "qcontainer": container}
+        if ncol == 1 and cols[0] in "ifmb" and case["to"] and rng.random() < 0.5:
+            case["qcontainer"] = rng.choice([c for c in conts])
+        if rng.random() < 0.4:
+            cc = rng.choice([1, 1, 2])
+            cpool = [["x"], ["y"], ["1"]] if cc == 1 else [["x", ","], ["x,", ""], ["\\", "y"], ["x", "y"]]
+            if cc == 1 and rng.random() < 0.4:
+                cpool = [[1], [2], [10]]
+            case["ctrl"] = [list(rng.choice(cpool)) for _ in range(n)]
+            case["ctrl_cols"] = cc
+            case["moment"] = rng.choice(["DP", "EO"])
+        return case
+
     def generate(self, rng, tier):
         while True:
+            if rng.random() < 0.15:
+                yield self._gen_callers(rng)
+                continue
             r = rng.random()
             ncol = rng.choice([2, 2, 3])
             if r < 0.62:
@@ -347,6 +453,17 @@ class CHECK(Check):
     def exhaustive(self, tier):
         import random
         rng = random.Random(1234)
+        # callers: every pair of distinct values of each single-column pool in every container that can hold it
+        for kind, pool, conts in (("s", CALLER_CELLS["s"], ["flat", "series", "df", "ndobj", "nd1d"]),
+                                  ("i", CALLER_CELLS["i"], ["flat", "series", "df", "ndobj", "nd1d"]),
+                                  ("f", CALLER_CELLS["f"], ["flat", "series", "df", "ndobj", "nd1d"]),
+                                  ("m", ["1", 1, 1.0, "1.0", 2, "a", True], ["series", "df", "ndobj"])):
+            for a, b in itertools.combinations(pool, 2):
+                for cont in conts:
+                    rows = [[a], [b], [a], [b]]
+                    yield {"kind": "callers", "cols": [kind], "container": cont, "rows": rows, "y": [0, 0, 1, 1],
+                           "scores": ["1/8", "1/2", "3/4", "1/4"], "query": [[0, "1/2"], [1, "1/2"], [2, "1/8"], [3, "7/8"]],
+                           "moment": "DP", "ctrl": None, "ctrl_cols": 0, "to": "demographic_parity", "qcontainer": cont}
         alltup = list(itertools.product(_VALS2, repeat=2))
         for container in ("df", "ndobj", "ndU", "list"):
             c = self._make(rng, ["s", "s"], container, alltup, extra=0)
@@ -362,6 +479,18 @@ class CHECK(Check):
                 yield self._make(rng, ["s", "s"], container, [alltup[i], alltup[j]], extra=0, light=True)
 
     def shrink(self, case):
+        if case.get("kind") == "callers":
+            if case.get("ctrl"):
+                yield dict(case, ctrl=None, ctrl_cols=0)
+            if case.get("to"):
+                yield dict(case, to=None)
+            keys = [json.dumps(r) for r in case["rows"]]
+            for d in sorted(set(keys)):
+                keep = [i for i, k in enumerate(keys) if k != d]
+                if len({keys[i] for i in keep}) >= 2:
+                    c = self._sub(dict(case, do=[]), keep)
+                    yield c
+            return
         do = case["do"]
         for t in ("eg", "gs", "to", "mf"):
             if t in do and len(do) > 1:
@@ -406,7 +535,59 @@ class CHECK(Check):
         return c
 
     # ---------------------------------------------------------------- implementation
+    def _impl_callers(self, case):
+        import pandas as pd
+        rows, y = case["rows"], np.array(case["y"])
+        n = len(rows)
+        scores = np.array([float(F(s)) for s in case["scores"]])
+        X = scores.reshape(-1, 1)
+        table = caller_table(case, rows)
+        kw = {"sensitive_features": table}
+        if case.get("ctrl"):
+            cvals = case["ctrl"]
+            kw["control_features"] = (pd.DataFrame({f"c{k}": [r[k] for r in cvals] for k in range(case["ctrl_cols"])})
+                                      if case["ctrl_cols"] > 1 else pd.Series([r[0] for r in cvals]))
+        m = make_moment(case["moment"])
+        if case["moment"] in ("BGL", "ER"):
+            kw.pop("control_features", None)
+        try:
+            m.load_data(X, y, **kw)
+        except ValueError:
+            # a None cell in a DataFrame is a pandas missing value: sklearn's check_array rejects the table
+            return {"rejected": "ValueError"}
+        gids = list(m.tags["group_id"])
+        out = {"gid": [canon(v) if len(case["cols"]) == 1 else str(v) for v in gids],
+               "gid_str": [isinstance(v, str) for v in gids]}
+        if "control_features" in kw:
+            out["events"] = ["<null>" if not isinstance(v, str) else v for v in m.tags["event"]]
+        if case.get("to"):
+            from fairlearn.postprocessing import ThresholdOptimizer
+            keys = [caller_key(case, r) for r in rows]
+            rank = {k: i for i, k in enumerate(sorted(set(keys), key=str))}
+            ref_ids = [f"g{rank[k]:03d}" for k in keys]
+
+            def fit(sf):
+                to = ThresholdOptimizer(estimator=make_pass(), constraints=case["to"], prefit=True,
+                                        predict_method="predict", grid_size=8)
+                to.fit(X, y, sensitive_features=sf)
+                return to
+            try:
+                to, ref = fit(table), fit(ref_ids)
+                d = to.interpolated_thresholder_.interpolation_dict
+                qidx = [i for i, _ in case["query"]]
+                qs = np.array([float(F(s)) for _, s in case["query"]]).reshape(-1, 1)
+                qtab = caller_table(case, [rows[i] for i in qidx], case["qcontainer"])
+                out["to"] = {"keys": [canon(k) if len(case["cols"]) == 1 else str(k) for k in d],
+                             "pmf": [float(v) for v in to._pmf_predict(qs, sensitive_features=qtab)[:, 1]],
+                             "pmf_ref": [float(v) for v in
+                                         ref._pmf_predict(qs, sensitive_features=[ref_ids[i] for i in qidx])[:, 1]]}
+            except ValueError as e:
+                out["to"] = {"exc": "ValueError", "degenerate": "egenerate" in str(e)}
+        return out
+
     def impl(self, case):
+        if case.get("kind") == "callers":
+            return self._impl_callers(case)
         import logging
         logging.getLogger("fairlearn").setLevel(logging.ERROR)
         for nm in list(logging.root.manager.loggerDict):
@@ -541,7 +722,18 @@ class CHECK(Check):
         return out
 
     # ---------------------------------------------------------------- model lines
+    def _caller_tokens(self, case):
+        if len(case["cols"]) == 1:
+            return [(canon(r[0]),) for r in case["rows"]]
+        return str_rows(case, case["rows"])
+
     def lines(self, case, o):
+        if case.get("kind") == "callers":
+            tab = fmt_table(self._caller_tokens(case))
+            ls = [f"merge.encode sf {tab}", f"merge.encode.classes sf {tab}"]
+            if case.get("ctrl") and isinstance(o, dict) and "events" in o:
+                ls.append("merge.encode cf " + fmt_table([tuple(str(v) for v in r) for r in case["ctrl"]]))
+            return ls
         srows = str_rows(case, case["rows"])
         tab = fmt_table(srows)
         ls = [f"merge.keys {tab}", f"merge.classes {tab}", f"merge.cells {len(case['cols'])} {tab}"]
@@ -557,6 +749,8 @@ class CHECK(Check):
     def judge(self, case, o, mo):
         if "crash" in o:
             return [Problem("correspondence", f"implementation crashed: {o}", "impl-total")]
+        if case.get("kind") == "callers":
+            return self._judge_callers(case, o, mo)
         probs = []
         rows = case["rows"]
         n = len(rows)
@@ -701,7 +895,108 @@ class CHECK(Check):
                                                  f"({r['pmf'][:4]} vs {r['pmf_ref'][:4]})", "C13.reduction_same_partition"))
         return probs
 
+    def _judge_callers(self, case, o, mo):
+        """one column: the values themselves are the group ids (no stringification, compared by ==); several columns:
+        tuples of str(cell); control features likewise; ThresholdOptimizer predicts with the rule of the same tuple"""
+        probs = []
+        rows = case["rows"]
+        single = len(case["cols"]) == 1
+        missing = case["container"] == "df" and any(v is None for r in rows for v in r)
+        if "rejected" in o or missing:
+            # None in a DataFrame = missing value -> rejected by the validation; None in an object ndarray is the
+            # string 'None' after astype(str) (inside the property's "compared as strings" clause)
+            if ("rejected" in o) != missing:
+                return [Problem("correspondence", f"table {'rejected' if 'rejected' in o else 'accepted'} ({case['container']}, "
+                                                  f"rows {rows})", "C13.callers_missing_values")]
+            return []
+        keys = [caller_key(case, r) for r in rows]
+        want = classes_of(keys)
+        got = classes_of(o["gid"])
+        what = "value" if single else "tuple of strings"
+        if got != want:
+            probs.append(Problem("property", f"{case['moment']}.tags['group_id'] partitions the rows as {got}, equality of the "
+                                             f"{what} gives {want} (rows {rows})", "C13.encode_same_group_iff"))
+        if single:
+            for r, is_str in zip(rows, o["gid_str"]):
+                if is_str != isinstance(r[0], str):
+                    probs.append(Problem("correspondence", f"single column: value {r[0]!r} became a "
+                                                           f"{'string' if is_str else 'non-string'} group id", "C13.encode_single"))
+                    break
+        elif not all(o["gid_str"]):
+            probs.append(Problem("correspondence", "several columns: group ids are not strings", "C13.encode_multi"))
+        if "events" in o:
+            ckeys = [tuple(str(v) for v in r) for r in case["ctrl"]]
+            if case["moment"] == "EO":
+                cw = classes_of([(t, yy) for t, yy in zip(ckeys, case["y"])])
+            else:
+                cw = classes_of(ckeys)
+            if classes_of(o["events"]) != cw:
+                probs.append(Problem("property", f"events with control features {classes_of(o['events'])} do not partition the rows "
+                                                 f"by control tuple {cw}", "C13.same_group_iff(control)"))
+        to = o.get("to")
+        if to is not None:
+            if "exc" in to:
+                cnt = collections.defaultdict(set)
+                for k, yy in zip(keys, case["y"]):
+                    cnt[k].add(yy)
+                if all(len(v) == 2 for v in cnt.values()):
+                    probs.append(Problem("property", f"ThresholdOptimizer.fit raised {to} although every group has both labels",
+                                         "C13.to_fit"))
+            else:
+                if len(to["keys"]) != len(set(keys)):
+                    probs.append(Problem("property", f"interpolation_dict has {len(to['keys'])} keys, the table has {len(set(keys))} "
+                                                     f"distinct {what}s", "C13.to_keys"))
+                for qi, (a, b) in enumerate(zip(to["pmf"], to["pmf_ref"])):
+                    if abs(a - b) > TOL:
+                        i, sc = case["query"][qi]
+                        probs.append(Problem("property", f"predict time ({case['qcontainer']}): row {rows[i]!r} with score {sc} gets "
+                                                         f"P(1)={a}, the rule learned for that {what} gives {b}",
+                                             "C13.predict_selects_same_tuple"))
+                        break
+        if mo is not None:
+            if any(x == "bad-op" for x in mo):
+                return probs + [Problem("harness", f"driver rejected a line: {list(zip(self.lines(case, o), mo))[:3]}")]
+            toks = mo[0].split(",")
+            mids = [(t[:2], proto.p_strs(t[2:])[0] if t[2:] != "-" else "") for t in toks]
+            exp_tag = "r:" if single else "m:"
+            if any(t != exp_tag for t, _ in mids):
+                probs.append(Problem("correspondence", f"model (lifted merge test): {'merged' if single else 'raw'} group ids for a "
+                                                       f"{len(case['cols'])}-column table, implementation "
+                                                       f"{'strings' if all(o['gid_str']) else 'raw values'}", "Merge.encodeSensitive"))
+            elif [v for _, v in mids] != o["gid"]:
+                i = [j for j in range(len(rows)) if mids[j][1] != o["gid"][j]][0]
+                probs.append(Problem("correspondence", f"group id of row {i} {rows[i]!r}: implementation {o['gid'][i]!r}, model "
+                                                       f"{mids[i][1]!r}", "Merge.encodeSensitive"))
+            if p_classes(mo[1]) != want and not probs:
+                probs.append(Problem("harness", f"model classes {mo[1]} vs oracle {want}"))
+            if len(mo) > 2 and "events" in o:
+                ctoks = mo[2].split(",")
+                cids = [proto.p_strs(t[2:])[0] if t[2:] != "-" else "" for t in ctoks]
+                ctag = {t[:2] for t in ctoks}
+                if ctag != ({"r:"} if case["ctrl_cols"] == 1 else {"m:"}):
+                    probs.append(Problem("correspondence", f"model: control ids {sorted(ctag)} for {case['ctrl_cols']} control columns",
+                                         "Merge.encodeControl"))
+                base = {"DP": lambda yy: "all", "EO": lambda yy: f"label={yy}"}[case["moment"]]
+                exp_events = [f"control={c},{base(yy)}" for c, yy in zip(cids, case["y"])]
+                if exp_events != o["events"]:
+                    probs.append(Problem("correspondence", f"events {o['events'][:2]} vs model {exp_events[:2]}", "Merge.encodeControl"))
+        return probs
+
     def signature(self, case, o):
+        if case.get("kind") == "callers":
+            keys = [caller_key(case, r) for r in case["rows"]]
+            tags = ["kind=callers", f"callers:ncol={len(case['cols'])}", f"callers:cols={''.join(case['cols'])}",
+                    f"callers:container={case['container']}", f"callers:ctrl_cols={case['ctrl_cols']}"]
+            raw = {json.dumps(r) for r in case["rows"]}
+            if len(raw) > len(set(keys)):
+                tags.append("callers:distinct-values-same-" + ("number" if len(case["cols"]) == 1 else "string"))
+            if isinstance(o, dict) and "rejected" in o:
+                tags.append("callers:rejected(None in DataFrame)")
+            if isinstance(o, dict) and isinstance(o.get("to"), dict):
+                tags.append("callers:to_exc" if "exc" in o["to"] else "callers:to")
+                if case["qcontainer"] != case["container"]:
+                    tags.append("callers:other_container_at_predict")
+            return (json.dumps(case, sort_keys=True, default=str), len(set(keys)) >= 2, tags)
         srows = str_rows(case, case["rows"])
         distinct = sorted(set(srows))
         tags = [f"cols={''.join(case['cols'])}", f"container={case['container']}", f"n_rows={min(len(srows), 15)}",
